@@ -136,6 +136,12 @@ class Prog:
         if fl == "class":
             self.orig_init = m.K2.__init__
             self.meta_before.update({("init", a): getattr(self.orig_init, a) for a in META_ATTRS})
+        # metadata a decorator may have attached to the callable itself (functools.wraps carries __dict__ over)
+        try:
+            self.wrap_target.tlmc_tag = "tagged"
+            self.meta_before[("obj", "tlmc_tag")] = "tagged"
+        except (AttributeError, TypeError):
+            pass
 
     def describe(self):
         s = B.sig_src(self.kinds, self.mask, self.dmask)
